@@ -21,6 +21,22 @@ def _impl_bodies(crate, adt_name, trait_suffix):
     return out
 
 
+def _any_impl(crate, adt_name, trait_suffix):
+    """like _impl_bodies, derived impls included"""
+    out = {}
+    for imp in crate.impls:
+        if not imp.get("of_trait") or not (imp.get("trait") or "").endswith(trait_suffix):
+            continue
+        st = imp["self_ty"].split("<")[0]
+        if st.endswith("::" + adt_name) or st == adt_name:
+            for it in imp["items"]:
+                b = crate.by_key.get(it["key"])
+                if b is not None:
+                    out[it["name"]] = b
+            out["__impl__"] = imp
+    return out
+
+
 def _unref_const(x):
     while isinstance(x, tuple) and len(x) == 2 and x[0] == "ref" and isinstance(x[1], tuple) and x[1][0] == "constval":
         x = x[1][1]
@@ -247,13 +263,17 @@ def check_items(col, crate, sfx):
         kind = "min" if nm.startswith("Min") else "max" if nm.startswith("Max") else "sum" if nm.startswith("Sum") else None
         if kind is None:
             continue
-        impl = _impl_bodies(crate, nm, "Default")
+        impl = _any_impl(crate, nm, "Default")
         key = "%s|default-is-identity" % nm
-        if "default" not in impl:
-            if (impl.get("__impl__") or {}).get("derived") and kind == "sum":
+        if "__impl__" not in impl:
+            continue   # no Default: the item cannot seed a search
+        if impl["__impl__"].get("derived"):
+            if kind == "sum":
                 col.ok("R10" + sfx, "%s:%d" % (a["span"]["file"], a["span"]["line"]), key, "derived Default: every field default()", nontrivial=False)
-            elif "__impl__" in impl:
+            else:
                 col.violation("R10" + sfx, key, "%s:%d" % (a["span"]["file"], a["span"]["line"]), "%s derives Default: its value field is T::default(), not the identity of %s" % (nm, kind))
+            continue
+        if "default" not in impl:
             continue
         b = impl["default"]
         I = A(b)
@@ -280,6 +300,38 @@ def check_items(col, crate, sfx):
     nt = crate.program.crates.get("rlib_num_traits") if hasattr(crate, "program") and crate.program is not None else None
     if nt is not None:
         _rule_minmax(col, nt, "R10" + sfx)
+
+    # ---------------- R11 a copy of an item is the item: construction by fill / from_slice clones its input, queries clone nodes
+    col.rule("R11" + sfx, "Clone of the built-in items is derived or copies every field", floor=6)
+    for nm, a, fields in plain + lazy:
+        impl = _any_impl(crate, nm, "Clone")
+        key = "%s|clone-copies-every-field" % nm
+        loc = "%s:%d" % (a["span"]["file"], a["span"]["line"])
+        if "__impl__" not in impl:
+            col.violation("R11" + sfx, key, loc, "%s has no Clone impl" % nm)
+            continue
+        if impl["__impl__"].get("derived"):
+            col.ok("R11" + sfx, loc, key, "derived", nontrivial=False)
+            continue
+        b = impl.get("clone")
+        if b is None:
+            col.violation("R11" + sfx, key, loc, "hand-written Clone for %s without a clone method" % nm)
+            continue
+        I = A(b)
+        selfp = ("deref", ("param", 1, I.names.get(1)))
+        ok, why = bool(I.final_states), ""
+        for st in I.final_states:
+            agg = _resolve_ctor(crate, nm, util.ret_term(st), st)
+            if agg is None or len(agg) != len(fields):
+                ok, why = False, "returns %s" % tstr(util.ret_term(st))[:80]
+                break
+            for k_, fv in enumerate(agg):
+                if _strip_clone(fv) != ("load", ("m0",), ("field", selfp, k_)):
+                    ok, why = False, "field %s of the copy is %s" % (fields[k_], tstr(fv)[:60])
+        if ok:
+            col.ok("R11" + sfx, b.loc(), key, "hand-written, field by field")
+        else:
+            col.violation("R11" + sfx, key, b.loc(), "%s::clone does not copy every field (%s): Segtree::new / from_slice clone their input and ask clones nodes, so a copy must be the same element" % (nm, why))
 
     # ---------------- R8 combinator
     impl = _impl_bodies(crate, "Combinator", "SegtreeItem")
